@@ -20,6 +20,16 @@ LEAVES = [
     dict(op="Resize", oshape=[2, 3], ishape=[2, 4], ish=[2, 4], osh=[2, 3]),
     dict(op="Identity", shape=[3, 2], ish=[3, 2], osh=[3, 2]),
 ]
+# extra operands for the ill-typed pairs only: shapes that coincide with the typed alphabet in size but not in shape, as a
+# prefix or suffix of it, or up to singleton axes (what a zip()-based or size-based comparison would let through)
+ILL_EXTRA = [
+    dict(op="Reshape", oshape=[6], ishape=[2, 3], ish=[2, 3], osh=[6]),
+    dict(op="Identity", shape=[6], ish=[6], osh=[6]),
+    dict(op="Identity", shape=[2], ish=[2], osh=[2]),
+    dict(op="Identity", shape=[2, 3, 1], ish=[2, 3, 1], osh=[2, 3, 1]),
+    dict(op="Identity", shape=[1, 2, 3], ish=[1, 2, 3], osh=[1, 2, 3]),
+    dict(op="Identity", shape=[2, 3, 2], ish=[2, 3, 2], osh=[2, 3, 2]),
+]
 SUB5 = [LEAVES[i] for i in (0, 1, 3, 4, 9)]
 SUB3 = [LEAVES[i] for i in (1, 3, 9)]
 
